@@ -97,9 +97,13 @@ def tree_ok(chain, top, finals):
     return True, ""
 
 
-def make_finals(n, identical, BaseParticle, tag):
+def make_finals(n, identical, BaseParticle, tag, two_pairs=False):
     if not identical:
         return [BaseParticle("f%s%d" % (tag, i)) for i in range(n)]
+    if two_pairs and n >= 4:
+        # two families of identical particles: pi:1, pi:2, K:1, K:2 (, rest distinct)
+        out = [BaseParticle("pi%s:%d" % (tag, i + 1)) for i in range(2)] + [BaseParticle("K%s:%d" % (tag, i + 1)) for i in range(2)]
+        return out + [BaseParticle("f%s%d" % (tag, i)) for i in range(n - 4)]
     # identical-particle names: pi:1, pi:2 (, pi:3), rest distinct
     k = 2 if n < 5 else 3
     out = [BaseParticle("pi%s:%d" % (tag, i + 1)) for i in range(k)]
@@ -249,7 +253,9 @@ def run(ctx):
         identical = bool(rng.random() < 0.5)
         tag = "g%d_%d_" % (ctx.seed, i)
         top = BaseParticle("T" + tag)
-        finals = make_finals(n, identical, BaseParticle, tag)
+        two_pairs = bool(identical and n >= 4 and rng.random() < 0.5)
+        finals = make_finals(n, identical, BaseParticle, tag, two_pairs=two_pairs)
+        ctx.covered("identical_families", 2 if two_pairs else (1 if identical else 0))
         chains = DecayChain.from_particles(top, finals)
         nsel = int(rng.integers(1, min(len(chains), 6) + 1))
         sel = [chains[k] for k in rng.choice(len(chains), size=nsel, replace=False)]
